@@ -113,7 +113,18 @@ def case_hist(seed, out, spec, wd):
                 else:
                     args['snapshot'] = 'no_collect'
                     args['log_msg'] = mark
-                h = agent.register_tracepoint(base, line, args, watches, metrics)
+                # call forms: every optional argument may be left out
+                form = r.randrange(5)
+                if form == 0 or (watches and metrics):
+                    h = agent.register_tracepoint(base, line, args, watches, metrics)
+                elif form == 1:
+                    h = agent.register_tracepoint(base, line, args, watches=watches, metrics=metrics)
+                elif watches:
+                    h = agent.register_tracepoint(base, line, args, watches)
+                elif metrics:
+                    h = agent.register_tracepoint(base, line, args, metrics=metrics)
+                else:
+                    h = agent.register_tracepoint(base, line, args)
                 handles.append((mark, h, line))
                 live[mark] = line
                 ops.append(('register', mark, line, style))
